@@ -28,7 +28,7 @@ enum Group {
 }
 
 #[derive(Serialize, Deserialize, Debug, Clone, Hash)]
-struct Case {
+pub struct Case {
     elem: Elem,
     group: Group,
     len: usize,
@@ -393,7 +393,7 @@ fn check_len<T: El>(len: usize) -> Result<(), String> {
     Ok(())
 }
 
-fn run_case(c: &Case) -> Result<(), String> {
+pub fn run_case(c: &Case) -> Result<(), String> {
     macro_rules! dispatch {
         ($t:ty) => {
             match c.group {
